@@ -29,11 +29,12 @@ Record st := mkSt {
   s_poisoned : bool;
   s_m : mst;
   s_merged : list N;              (* items merged so far, in merge order *)
-  s_rejected : list N
+  s_rejected : list N;
+  s_lost : list N                 (* items held by a worker when it died *)
 }.
 
 Definition init (c : cfg) (items : list N) : st :=
-  mkSt (PRun items) [] (replicate (n_workers c) WIdle) ∅ false MWaitProd [] [].
+  mkSt (PRun items) [] (replicate (n_workers c) WIdle) ∅ false MWaitProd [] [] [].
 
 Definition w_live (w : wst) : bool := match w with WExited | WDead => false | _ => true end.
 (* some receiver handle exists: a worker's clone is dropped when its closure returns or unwinds *)
@@ -50,9 +51,9 @@ Inductive label :=
   | LJoined | LJoinDead | LFinish.
 
 Definition set_w (s : st) (w : nat) (x : wst) : st :=
-  mkSt (s_p s) (s_q s) (<[w := x]> (s_w s)) (s_acc s) (s_poisoned s) (s_m s) (s_merged s) (s_rejected s).
+  mkSt (s_p s) (s_q s) (<[w := x]> (s_w s)) (s_acc s) (s_poisoned s) (s_m s) (s_merged s) (s_rejected s) (s_lost s).
 Definition set_m (s : st) (m : mst) : st :=
-  mkSt (s_p s) (s_q s) (s_w s) (s_acc s) (s_poisoned s) m (s_merged s) (s_rejected s).
+  mkSt (s_p s) (s_q s) (s_w s) (s_acc s) (s_poisoned s) m (s_merged s) (s_rejected s) (s_lost s).
 
 Definition step (c : cfg) (s : st) (l : label) : option st :=
   if exited s then None else
@@ -61,7 +62,7 @@ Definition step (c : cfg) (s : st) (l : label) : option st :=
       match s_p s with
       | PRun (it :: r) =>
           if Nat.ltb (length (s_q s)) (cap c)
-          then Some (mkSt (PRun r) (s_q s ++ [Some it]) (s_w s) (s_acc s) (s_poisoned s) (s_m s) (s_merged s) (s_rejected s))
+          then Some (mkSt (PRun r) (s_q s ++ [Some it]) (s_w s) (s_acc s) (s_poisoned s) (s_m s) (s_merged s) (s_rejected s) (s_lost s))
           else None
       | _ => None
       end
@@ -69,24 +70,24 @@ Definition step (c : cfg) (s : st) (l : label) : option st :=
       match s_p s with
       | PRun (_ :: _) =>
           if rx_alive c s then None
-          else Some (mkSt PDead (s_q s) (s_w s) (s_acc s) (s_poisoned s) (s_m s) (s_merged s) (s_rejected s))
+          else Some (mkSt PDead (s_q s) (s_w s) (s_acc s) (s_poisoned s) (s_m s) (s_merged s) (s_rejected s) (s_lost s))
       | _ => None
       end
   | LProdDone =>
       match s_p s with
-      | PRun [] => Some (mkSt PDone (s_q s) (s_w s) (s_acc s) (s_poisoned s) (s_m s) (s_merged s) (s_rejected s))
+      | PRun [] => Some (mkSt PDone (s_q s) (s_w s) (s_acc s) (s_poisoned s) (s_m s) (s_merged s) (s_rejected s) (s_lost s))
       | _ => None
       end
   | LRecv w =>
       match s_w s !! w, s_q s with
       | Some WIdle, Some it :: q =>
-          Some (mkSt (s_p s) q (<[w := WHolding it]> (s_w s)) (s_acc s) (s_poisoned s) (s_m s) (s_merged s) (s_rejected s))
+          Some (mkSt (s_p s) q (<[w := WHolding it]> (s_w s)) (s_acc s) (s_poisoned s) (s_m s) (s_merged s) (s_rejected s) (s_lost s))
       | _, _ => None
       end
   | LRecvStop w =>
       match s_w s !! w, s_q s with
       | Some WIdle, None :: q =>
-          Some (mkSt (s_p s) q (<[w := WExited]> (s_w s)) (s_acc s) (s_poisoned s) (s_m s) (s_merged s) (s_rejected s))
+          Some (mkSt (s_p s) q (<[w := WExited]> (s_w s)) (s_acc s) (s_poisoned s) (s_m s) (s_merged s) (s_rejected s) (s_lost s))
       | _, _ => None
       end
   | LRejected w =>
@@ -95,7 +96,7 @@ Definition step (c : cfg) (s : st) (l : label) : option st :=
           match fault c it, parse c it with
           | FReject, _ | FNone, None | FDieLocked, None =>
               Some (mkSt (s_p s) (s_q s) (<[w := WIdle]> (s_w s)) (s_acc s) (s_poisoned s) (s_m s)
-                         (s_merged s) (s_rejected s ++ [it]))
+                         (s_merged s) (s_rejected s ++ [it]) (s_lost s))
           | _, _ => None
           end
       | _ => None
@@ -103,7 +104,11 @@ Definition step (c : cfg) (s : st) (l : label) : option st :=
   | LDieParse w =>
       match s_w s !! w with
       | Some (WHolding it) =>
-          match fault c it with FDieParse => Some (set_w s w WDead) | _ => None end
+          match fault c it with
+          | FDieParse => Some (mkSt (s_p s) (s_q s) (<[w := WDead]> (s_w s)) (s_acc s) (s_poisoned s) (s_m s)
+                                    (s_merged s) (s_rejected s) (s_lost s ++ [it]))
+          | _ => None
+          end
       | _ => None
       end
   | LParsed w =>
@@ -121,7 +126,7 @@ Definition step (c : cfg) (s : st) (l : label) : option st :=
           match fault c it, s_poisoned s, parse c it with
           | FNone, false, Some b =>
               Some (mkSt (s_p s) (s_q s) (<[w := WIdle]> (s_w s)) (add_results (s_acc s) b) false (s_m s)
-                         (s_merged s ++ [it]) (s_rejected s))
+                         (s_merged s ++ [it]) (s_rejected s) (s_lost s))
           | _, _, _ => None
           end
       | _ => None
@@ -130,7 +135,7 @@ Definition step (c : cfg) (s : st) (l : label) : option st :=
       match s_w s !! w with
       | Some (WParsed it) =>
           if s_poisoned s || match fault c it with FDieLocked => true | _ => false end
-          then Some (mkSt (s_p s) (s_q s) (<[w := WDead]> (s_w s)) (s_acc s) true (s_m s) (s_merged s) (s_rejected s))
+          then Some (mkSt (s_p s) (s_q s) (<[w := WDead]> (s_w s)) (s_acc s) true (s_m s) (s_merged s) (s_rejected s) (s_lost s ++ [it]))
           else None
       | _ => None
       end
@@ -142,7 +147,7 @@ Definition step (c : cfg) (s : st) (l : label) : option st :=
       match s_m s with
       | MSendStop k =>
           if Nat.ltb k (n_workers c) && Nat.ltb (length (s_q s)) (cap c)
-          then Some (mkSt (s_p s) (s_q s ++ [None]) (s_w s) (s_acc s) (s_poisoned s) (MSendStop (S k)) (s_merged s) (s_rejected s))
+          then Some (mkSt (s_p s) (s_q s ++ [None]) (s_w s) (s_acc s) (s_poisoned s) (MSendStop (S k)) (s_merged s) (s_rejected s) (s_lost s))
           else None
       | _ => None
       end
